@@ -100,6 +100,10 @@ def part2(M):
             proof = as_rope(right_proof).slice(0, 63) if be.sym else bytes(right_proof)[:63]
         elif psel == "front-truncated":
             proof = as_rope(right_proof).slice(1, 64) if be.sym else bytes(right_proof)[1:]
+            if not be.sym:
+                # 1 in 256 real proofs starts with a zero byte: without it the value is numerically the same proof, which the
+                # client may accept (C02 decides that case); it is not a *wrong* proof
+                ex.assume(bytes(right_proof)[0] != 0)
         elif psel == "empty":
             proof = b""
         else:
